@@ -174,11 +174,15 @@ def global_state_rule(ctx, rep, R="C13.g"):
                            f"{fn_key(b)}: a process-wide once-cell is initialised from the function's arguments ({dep[0]}): later calls with other arguments (another repository) silently get the first value")
     # thread-local state: any access whose value / closure depends on the function's arguments keeps argument-dependent state
     # across calls (a cache keyed by a repository's salt, id, path ...): later calls on the same thread see earlier inputs
+    KEYED = re.compile(r"Map<|Set<|Cache|Lru|Memo|Vec<\(")
     TL = re.compile(r"^std::thread::LocalKey::<T>::(with|try_with|with_borrow|with_borrow_mut|set|replace|take)$|^std::thread::LocalKey::<std::cell::(RefCell|Cell)<T>>::(with_borrow|with_borrow_mut|set|replace|take|get)$")
     ntl = 0
     for b in prog.by_crate["rustic_core"] + prog.by_crate.get("rustic_backend", []):
         for bb, t in b.calls():
             if "callee" not in t or not TL.search(callee(t)):
+                continue
+            # keyed containers (maps / sets / caches) hold per-input state; a reused scratch buffer or a counter does not decide results
+            if not KEYED.search(" ".join(t.get("gargs") or [])):
                 continue
             ntl += 1
             dep = []
@@ -200,6 +204,8 @@ def global_state_rule(ctx, rep, R="C13.g"):
     for b in prog.by_crate["rustic_core"] + prog.by_crate.get("rustic_backend", []):
         for bb, t in b.calls():
             if "callee" not in t or not MUT.search(callee(t)) or not t["args"] or op_place(t["args"][0]) is None:
+                continue
+            if not KEYED.search(" ".join(t.get("gargs") or [])):
                 continue
             orig = flow.origins(b, op_place(t["args"][0]))
             st = [o for o in orig if o.kind == "static"]
